@@ -5,10 +5,6 @@
 //@assume <[T]>::clone_from_slice copies, u8::overflowing_add is addition mod 256 with carry (assume_specification)
 //@include-spec sm4_block
 //@section spec
-pub assume_specification<T: Clone>[ <[T]>::clone_from_slice ](a: &mut [T], b: &[T])
-    requires old(a)@.len() == b@.len() ensures final(a)@ == b@;
-pub assume_specification[ u8::overflowing_add ](x: u8, y: u8) -> (r: (u8, bool))
-    ensures r.0 as int + (if r.1 { 256int } else { 0 }) == x as int + y as int;
 
 // block cipher facts used by the mode layer: proved in unit sm4_block (theorem_block)
 proof fn ax_block(rk: Seq<u32>, b: Seq<u8>)
@@ -123,6 +119,7 @@ proof fn theorem_ofb_roundtrip(rk: Seq<u32>, iv: Seq<u8>, p: Seq<u8>)
     assert(p =~= p.subrange(0, 16 * n) + tail(p));
 }
 //@section code
+#[derive(Debug, Clone, Eq, PartialEq)]
 struct Sm4Cipher {
     rk: [u32; 32],
 }
